@@ -1,3 +1,4 @@
+import FqModel.ContainerInfl
 import FqModel.Proto
 import FqModel.Bits
 import FqModel.Container
@@ -1019,6 +1020,33 @@ def stepDec (nested : Bool) (format fhex : String) (truth : Toks) (obs : String)
     else if format == "bzip2" then bzip2Prop truth o
     else "BADOP format"
 
+/-- `swp` lines (harness/cmd/c15/sweep.go): (inflated size x compressibility class x method / level) sweep through the stdlib
+    writers. truth = `m v len crc md5 clen`* `u len md5`; the expected report is `swpExpect` (the views of
+    `container_reports_inflated_payload`: the payload whole, ISIZE = len mod 2^32, crc valid, sizes where the writer put them).
+    Only lengths and hashes are on the line, the payloads are multi-MiB. -/
+def swpTruth : List String → List SwpM → Option (List SwpM × Nat × String)
+  | ["u", l, h], acc => l.toNat?.map (fun n => (acc.reverse, n, h))
+  | "m" :: v :: l :: c :: h :: cl :: rest, acc =>
+    match l.toNat?, c.toNat?, cl.toNat? with
+    | some l, some c, some cl => swpTruth rest ({ v, len := l, crc := c, md5 := h, clen := cl } :: acc)
+    | _, _, _ => none
+  | _, _ => none
+
+def stepSwp (kind : String) (truth : List String) (obs : String) : String :=
+  match swpTruth truth [] with
+  | none => "BADOP swp truth"
+  | some (ms, ulen, umd5) =>
+    match swpExpect kind ms ulen umd5 with
+    | none => "BADOP swp kind"
+    | some want =>
+      let o := words obs
+      if o.head? == some "noline" || o.contains "JQERR" || o.isEmpty then s!"BADOP projection failed: {obs.take 200}"
+      else if o.head? == some "panic" then s!"PROPFAIL swp {kind}: fq panicked on an intact file"
+      else if o.head? == some "err" then s!"PROPFAIL swp {kind}: decode error on an intact file from an independent writer"
+      else match swpDiff 0 want o with
+        | none => "OK"
+        | some (i, w, g) => s!"PROPFAIL swp {kind}: report token {i}: the writer stored {w}, fq reports {g} (tokens: ok n, then per member gzip M clen crc32 verdict isize len md5 / zip L method dd crc csize usize len md5 clen dd-crc dd-csize dd-usize, D crc csize usize / png Z crc-verdict clen len md5)"
+
 def stepC15 (op obs : String) : String :=
   match words op with
   | ["crc", name, bits, init, hex] => stepCrc name bits init hex obs
@@ -1037,6 +1065,7 @@ def stepC15 (op obs : String) : String :=
       else "BADOP mdl valid"
     | none => "BADOP file hex"
   | ["zlb", valid, shex, sclen, sdata] => stepZlb valid shex sclen sdata obs
+  | "swp" :: kind :: _variant :: _cls :: _size :: _level :: _seed :: truth => stepSwp kind truth obs
   | "dec" :: format :: fhex :: truth => stepDec false format fhex truth obs
   | "nst" :: _path :: _outer :: format :: fhex :: truth => stepDec true format fhex truth obs
   | "cor" :: format :: fhex :: cs =>
